@@ -65,13 +65,15 @@ def probe_class():
 
             @weak_lru_cache(maxsize=2)
             def g(self, x, k=1, m=1):
+                if x == 9:
+                    raise ValueError('probe: no result for this argument')
                 return ('g', self.data, self.no, x, k, m)
 
         _PROBE['cls'] = Probe
     return _PROBE['cls']
 
 
-PROBE_CALLS = [('f', (), {}), ('f', (1,), {}), ('f', (), {'x': 1}), ('g', (0,), {}), ('g', (0, 2), {}), ('g', (0,), {'k': 2}), ('g', (5,), {}), ('g', (0,), {'m': 2})]  # the last two g calls: the same value under different names
+PROBE_CALLS = [('f', (), {}), ('f', (1,), {}), ('f', (), {'x': 1}), ('g', (0,), {}), ('g', (0, 2), {}), ('g', (0,), {'k': 2}), ('g', (5,), {}), ('g', (0,), {'m': 2}), ('g', (9,), {})]  # g(0, k=2) / g(0, m=2): the same value under different names; g(9) raises
 
 
 # ------------------------------------------------------------------ real classes
@@ -140,7 +142,7 @@ def fast_conversion(transitions, *, minimal_residence=0):
 
 REAL_CALLS = {
     'T': [('matrix', (), {}), ('states_next', (), {}), ('states_prev', (), {})],
-    'J': [('matrix', (), {}), ('counter', (), {}), ('jump_diffusivity', (3,), {}), ('jump_diffusivity', (), {'dimensions': 1}), ('collective', (), {}), ('collective', (3.5,), {}), ('to_graph', (), {}), ('to_graph', (), {'max_e_act': 'MID'}), ('to_graph', (), {'min_e_act': 'MID'}), ('split', (2,), {}), ('split', (3,), {})],
+    'J': [('matrix', (), {}), ('counter', (), {}), ('jump_diffusivity', (3,), {}), ('jump_diffusivity', (), {'dimensions': 1}), ('jump_diffusivity', (0,), {}), ('collective', (), {}), ('collective', (3.5,), {}), ('to_graph', (), {}), ('to_graph', (), {'max_e_act': 'MID'}), ('to_graph', (), {'min_e_act': 'MID'}), ('split', (2,), {}), ('split', (3,), {})],
     'M': [('tracer_diffusivity', (), {'dimensions': 3}), ('tracer_diffusivity', (), {'dimensions': 1}), ('particle_density', (), {}), ('attempt_frequency', (), {}), ('tracer_conductivity', (), {'z_ion': 2, 'dimensions': 3}), ('tracer_conductivity', (), {'dimensions': 2, 'z_ion': 3}), ('haven_ratio', (), {})],
 }
 
